@@ -221,6 +221,7 @@ type replayFile struct {
 	Violation Violation   `json:"violation"`
 	Note      string      `json:"note,omitempty"`
 	Input     any         `json:"input,omitempty"`
+	Tier      string      `json:"tier,omitempty"` // the draw list is interpreted under this tier's generator settings
 }
 
 func hashStr(s string) string {
@@ -426,7 +427,7 @@ func (w *Worker) SimProperty(prop string, draw func(Chooser, string) *SimCase) f
 		}
 		sz := caseSize(c)
 		if w.best == nil || sz <= w.bestSz {
-			rf := &replayFile{Property: prop, Engine: "sim", Draws: append([]int{}, rec.Draws...), Program: c.Src, Twin: c.TwinSrc, Fault: c.Fault, Violation: *fail}
+			rf := &replayFile{Property: prop, Engine: "sim", Draws: append([]int{}, rec.Draws...), Program: c.Src, Twin: c.TwinSrc, Fault: c.Fault, Violation: *fail, Tier: os.Getenv("VERIF_TIER")}
 			for i, r := range st.Runs {
 				rf.Runs = append(rf.Runs, replayRun{Config: c.Runs[i], Schedule: r.Schedule, LogHash: r.LogHash})
 			}
@@ -573,6 +574,7 @@ func (w *Worker) replay(path string) {
 		w.Out.Trouble = append(w.Out.Trouble, "replay: unknown engine "+rf.Engine)
 		return
 	}
+	os.Setenv("VERIF_TIER", rf.Tier)
 	for pass := 0; pass < 2; pass++ {
 		rc := &replayChooser{Draws: rf.Draws}
 		draw := DrawSimCase
